@@ -666,6 +666,16 @@ def beatree_sync(ctx):
         raise Unmatched("no fallible value in beatree wait_pre_meta")
     qs.append(PMulti("beatree wait_pre_meta: no fallible value is dropped uninspected", cfg, o2, fl2, {}, key="beatree wait_pre_meta:swallowed result"))
     enc.add("beatree::SyncController::wait_pre_meta @ nomt/src/beatree/mod.rs")
+    # nothing of the post-meta step (finish_sync: publishes the new index and lets freed pages be reused)
+    # happens in the pre-meta functions
+    for rx, nm in [(r"^beatree::.*::begin_sync::\{closure#0\}$", "beatree begin_sync task"), (r"^beatree::.*::wait_pre_meta$", "beatree wait_pre_meta"),
+                   (r"^beatree::.*::begin_sync$", "beatree::SyncController::begin_sync")]:
+        g = _fn(prog, rx, "beatree/mod.rs")
+        gcfg = pathsmt.Cfg(g)
+        bad = [bb for bb in gcfg.order if gcfg.blocks[bb].call and re.search(r"finish_sync|pre_swap_rx|SyncController::post_meta", gcfg.blocks[bb].call[1] + " " + (gcfg.blocks[bb].call[3] or ""))
+               and re.search(r"finish_sync|join_task|post_meta", gcfg.blocks[bb].call[1])]
+        qs.append(PQuery("%s: performs no post-meta step (finish_sync)" % nm, gcfg, {bb: [("bad", None)] for bb in bad}, [], {},
+                         key="%s:post-meta step before the switch-over" % nm))
     return qs, enc
 
 
